@@ -614,6 +614,20 @@ def main():
         return 0
     if args.replay:
         return N.replay_file(args.target, args.replay, args.repo, CONTRACTS, U)
+    if args.target.startswith('unit:'):
+        # development helper: run ONE unit under every property it is registered for
+        # (a shared universe / corpus / helper changed: every property has to be looked at)
+        unit = args.target[5:]
+        spec = U.VERUS.get(unit) or U.KANI.get(unit) or U.NATIVE.get(unit)
+        if spec is None:
+            log('no such unit: %s' % unit)
+            return 2
+        worst = 0
+        for p in sorted(spec['props']):
+            rc = check_property(p, args.tier, args.repo, only=[unit], seed=seed)
+            log('[%s] %s exit %d' % (p, unit, rc))
+            worst = 1 if (rc == 1 or worst == 1) else max(worst, rc)
+        return worst
     props = sorted(U.PROPS) if args.target == 'all' else [args.target]
     worst = 0
     for p in props:
